@@ -101,6 +101,8 @@ def run(rep, tier):
 
 def _mlen_value(f, v, mlenp, stored):
     """is v the value of *mlen (the stored SSA value or a re-load of *mlen)?"""
+    if not isinstance(v, str):
+        return False
     if v in stored:
         return True
     d = f.defs.get(v) if ir.is_local(v) else None
@@ -203,9 +205,14 @@ def check_oneshot(rep, m, f, cname):
     problems = []
     if ir.const_int(size) != TAG:
         problems.append("compares %s byte(s) of the tag instead of %d" % (ir.const_int(size), TAG))
-    if pt != mp:
+    wipe_elsewhere = (pt == "null" or ir.const_int(pt) == 0) and ir.const_int(plen) == 0
+    if wipe_elsewhere:
+        # the comparator is asked to wipe nothing: whether the plaintext is cleared on failure is then decided
+        # behaviourally by C02.D6 (forged tag, in place and out of place), not by this argument rule
+        rep.unproved_item("C02.D3", "%s (%s): the comparison is not given the plaintext buffer to wipe" % (name, cname))
+    elif pt != mp:
         problems.append("the buffer wiped on failure is not the m parameter")
-    if not _mlen_value(f, plen, mlenp, stored):
+    elif not _mlen_value(f, plen, mlenp, stored):
         problems.append("the wiped length is not the plaintext length stored to *mlen")
     recv = None
     for tv in (t1, t2):
@@ -239,8 +246,10 @@ def check_oneshot(rep, m, f, cname):
         mac = [c for c in f.calls() if c is not chk and cp in c.ops and mp not in c.ops and
                any(R.resolve(a).single() == R.resolve(t1 if recv == t2 else t2).single() for a in c.ops if ir.is_local(a))]
         dec = [c for c in f.calls() if c is not chk and mp in c.ops and cp in c.ops]
-        if len(mac) == 1 and len(dec) == 1 and f.dominates(mac[0], dec[0]) and f.dominates(dec[0], chk):
-            rep.instance("C02.D5", 1, {"config": cname, "function": name, "order": "mac(c), decrypt, check"})
+        # the tag is computed over the ciphertext before any keystream pass may overwrite it (m may equal c);
+        # whether the comparison comes before or after the keystream pass does not matter for that
+        if len(mac) == 1 and all(f.dominates(mac[0], d) for d in dec):
+            rep.instance("C02.D5", 1, {"config": cname, "function": name, "order": "mac(c) before every keystream pass"})
         else:
             rep.violation("C02.D5", name + ":order", chk.where(),
                           "%s does not authenticate the ciphertext before the keystream pass overwrites it in place" % name,
@@ -463,6 +472,12 @@ def rule_inverse(rep, tier):
             for (a, n) in ([(0, 0), (1, 3), (8, 17)] if tier == "quick" else [(a, n) for a in (0, 5) for n in (0, 1, 7, 8, 9, 17, 33)]):
                 cases.append((js, cname, layout, "case_aead_decrypt_session", (alg, a, n),
                               "%s session first packet ad %d message %d" % (alg, a, n), "ascon%s_aead_start" % alg))
+            for fam in ("aead", "masked", "siv", "isap"):
+                for inplace in (False, True):
+                    for (a, n) in ([(1, 9)] if tier == "quick" else [(0, 1), (1, 9), (9, 17), (17, 40)]):
+                        cases.append((js, cname, layout, "case_forgery_wipe", (fam, alg, a, n, inplace),
+                                      "%s %s forged tag ad %d message %d %s" % (alg, fam, a, n, "in place" if inplace else "out of place"),
+                                      "ascon%s_%s_decrypt" % (alg, {"aead": "aead", "masked": "masked_aead", "siv": "siv", "isap": "isap_aead"}[fam])))
     for d in modecheck.run_cases("C02", rid, tier, cases, None):
         rep.merge(d)
     rep.floor_discharged(rid, int(0.9 * len(cases)))
